@@ -64,7 +64,11 @@ def fingerprint(full=False):
     memoP = tuple(s.stateNumber for s in P.atn.states if s is not None and s.nextTokenWithinRule is not None)
     rnd = hashlib.sha256(repr(random.getstate()).encode()).hexdigest()[:12]
     ctx = len(P.sharedContextCache.cache)
-    t = (tuple(lex), par, memoL, memoP, rnd, ctx)
+    # graph objects the harness itself keeps across calls (c14_workload._RETAINED) are part of the state
+    from . import c14_workload
+
+    ret = tuple(sorted((k, c14_workload.graph_repr(g)) for k, g in c14_workload._RETAINED.items()))
+    t = (tuple(lex), par, memoL, memoP, rnd, ctx, ret)
     if full:
         return t
     return hashlib.sha256(repr(t).encode()).hexdigest()[:20]
